@@ -39,9 +39,9 @@ def _after(rng):
 
 def gen(rng):
     kind = rng.choice(["disc", "disc", "err", "err", "boundary", "failconn", "failconn", "takeover", "stop", "stop",
-                       "stalled", "preclose", "auth", "hold", "hold", "holdclose"] + (["timeout"] if rng.random() < 0.12 else []))
+                       "stalled", "preclose", "auth", "hold", "hold", "holdclose", "fault"] + (["timeout"] if rng.random() < 0.12 else []))
     zl = 0
-    ops = [f"new qt={QT} lc=1 ret=0 zl={zl}"]
+    ops = [f"new qt={QT} lc=1 ret=0 zl={zl}" + (" pe=faulty" if kind == "fault" else "")]
     v = rng.choice([4, 4, 5, 5, 3])
     tail = True
     if kind in ("disc", "err"):
@@ -125,6 +125,17 @@ def gen(rng):
             elif how == "mal":
                 ops.append("burst a MAL")
             ops += ["census", "counts", "lcev", "release", "census", "counts", "lcev"]
+    elif kind == "fault":
+        # the k-th call into the persistence layer made on behalf of a CONNECT fails (session Get / Set, UnsubscribeAll, queue / unack
+        # store creation and Init): the CONNECT is refused (or, when k is beyond the calls it makes, accepted), and the broker goes on
+        # serving everybody else — no lock left held, no goroutine left behind, Stop returns
+        ops.append(f"conn a ca v={v}")
+        if rng.random() < 0.4:
+            ops.append("burst a SUB:2:lc/x")
+        ops += [f"api failat {rng.choice([1, 2, 3, 4, 5, 6, 7, 8, 9])}", f"conn b cb v={rng.choice([3, 4, 5])}", "api failat 0",
+                "census", "counts", "lcev", f"conn c cc v={rng.choice([4, 5])}", "burst c PING SUB:3:lc/x", "burst a PUB0:lc/x", "census", "counts"]
+        if rng.random() < 0.5:
+            ops += [f"conn b2 cb v={rng.choice([4, 5])}", "census", "counts"]
     elif kind == "holdclose":
         # the tear-down of a connection is in progress (internalClose is inside the OnClosed hook of a client id hc…, which waits
         # for `release`) when Stop is called / another connection comes: Stop's return has to wait for it
@@ -195,8 +206,39 @@ def canon_line(op, line):
     parts = (["HANG"] if hang else []) + keep + [f"{n}:{','.join(sorted(set(evs[n])))}" for n in sorted(evs)]
     return " ".join(parts) if parts else "-"
 
+def faulted(ops):
+    """index -> client id of the `conn` ops that run with a persistence fault armed (`api failat k`, k > 0, right in front)"""
+    res = {}
+    for i, o in enumerate(ops):
+        f = o.split()
+        if i > 0 and f[0] == "conn" and ops[i - 1].startswith("api failat ") and ops[i - 1].split()[2] != "0":
+            res[i] = f[2]
+    return res
+
+def _strip_closed(line, cids):
+    """the OnClosed hook may or may not fire for a CONNECT that failed inside registerClient (it does once `setConnected` has run):
+    not part of what is compared"""
+    def fix(m):
+        evs = [e for e in m.group(1).split(",") if not (e.startswith("closed:") and e[7:] in cids)]
+        return "ev=" + (",".join(evs) if evs else "-")
+    return re.sub(r"\bev=(\S+)", fix, line)
+
+def _refused(line):
+    m = re.search(r"connack\(sp=\d,code=(\d+)", line)
+    return bool(m) and m.group(1) != "0"
+
+def hint(ops, impl_out):
+    """a CONNECT that ran into an injected persistence fault is refused or (fault point beyond its calls) accepted: the model is told which"""
+    res = list(ops)
+    for i, cid in faulted(ops).items():
+        if impl_out is not None and i < len(impl_out) and _refused(impl_out[i]):
+            f = ops[i].split()
+            res[i] = " ".join([f[0], f[1], "~"] + f[3:])
+    return res
+
 def canon(ops, out):
-    return [canon_line(o, l) for o, l in zip(ops, out)]
+    cids = set(faulted(ops).values())
+    return [canon_line(o, _strip_closed(l, cids) if cids else l) for o, l in zip(ops, out)]
 
 # ---------------------------------------------------------------- the property, re-checked on what the broker reported
 
@@ -328,7 +370,9 @@ def predicate(ops, out):
         return "implementation crashed or hung: " + (out[0][:300] if out else "")
     kv0 = dict(x.split("=", 1) for x in ops[0].split() if "=" in x)
     ref = Ref(kv0.get("zl", "1") == "1")
-    for op, raw in zip(ops, out):
+    flt = faulted(ops)
+    fcids = set(flt.values())
+    for opi, (op, raw) in enumerate(zip(ops, out)):
         f = op.split()
         kv = dict(x.split("=", 1) for x in f if "=" in x)
         pos = [x for x in f[1:] if "=" not in x]
@@ -349,7 +393,10 @@ def predicate(ops, out):
         ref.must_close = set()
         if f[0] == "conn":
             ref.st[pos[0]], ref.reader[pos[0]] = "raw", True
-            ref.feed(pos[0], [f"C:{pos[1]}:{kv.get('v', '4')}"])
+            if opi in flt and "connack(" not in raw:
+                return f"[fault] a CONNECT whose persistence call failed was not answered at all — `{op}`: {raw}"
+            # a CONNECT that ran into an injected persistence fault: refused (the specification's refused CONNECT) or accepted
+            ref.feed(pos[0], [f"C:{'~' if opi in flt and _refused(raw) else pos[1]}:{kv.get('v', '4')}"])
             want = "connack_ok" if ref.st[pos[0]] == "reg" else "connack_err"
             if want not in evs.get(pos[0], []):
                 if want == "connack_ok":
@@ -375,10 +422,11 @@ def predicate(ops, out):
         elif f[0] == "lcev":
             got = dict(x.split("=", 1) for x in raw.split() if "=" in x)
             evs = [] if got.get("ev", "-") == "-" else got["ev"].split(",")
+            evs = [e for e in evs if not (e.startswith("closed:") and e[7:] in fcids)]
             bad = ev_order(evs)
             if bad:
                 return f"[join] {bad} — `{op}`: {raw}"
-            if evs != ref.evs:
+            if evs != [e for e in ref.evs if not (e.startswith("closed:") and e[7:] in fcids)]:
                 return f"hook events {evs}, expected {ref.evs} — `{op}`"
             if int(got.get("subs", -1)) != len(ref.subs):
                 return (f"[join] the subscription store holds {got.get('subs')} subscription(s), the sessions that exist hold {len(ref.subs)}: a handler "
@@ -479,7 +527,8 @@ class LifecycleStream(core.Stream):
                         outs[i] = o2
         return outs
     def model(self, cases, impl_outs=None):
-        mo = core.run_parallel([core.oracle_exe("lifecycle")] + self.oracle_args, cases, timeout=self.timeout)
+        mcases = [hint(c, o) if impl_outs is not None and len(o) == len(c) else c for c, o in zip(cases, impl_outs or cases)]
+        mo = core.run_parallel([core.oracle_exe("lifecycle")] + self.oracle_args, mcases, timeout=self.timeout)
         # same policy for a disagreement with the model: the case runs once more alone before the disagreement is reported
         # (impl_outs is the list `correspond` goes on to use)
         if impl_outs is not None and len(cases) > 1:
